@@ -884,7 +884,7 @@ func main() {
 	}
 	start := time.Now()
 	sum := &Summary{Stream: "kernel", Profile: *profile, Seed: *seed, Distribution: map[string]int{}, Samples: []string{}, Mismatches: []Mismatch{},
-		Rule: "seeded histories of LoadFilter/Supported calls (pinned threads, privileged/unprivileged, flags {0,tsync,log,tsync|log,unknown bits, new_listener alone/with log/with tsync}; faults: seccomp(2) refused with ENOSYS/EPERM/EACCES, prctl refused; GOMAXPROCS 1 or 4, valid/invalid/oversize policies, unpinned loads with forced migration attempts, up to 63 extra threads in different states), each run in a fresh child process on the host kernel; a history is non-trivial if it contains at least one load that reaches the kernel; distinct by history JSON"}
+		Rule: "seeded histories of LoadFilter/Supported calls (pinned threads, privileged/unprivileged, flags {0,tsync,log,tsync|log,unknown bits, new_listener alone/with log/with tsync}; faults: seccomp(2) refused with ENOSYS/EPERM/EACCES/ENOMEM/EAGAIN/ESRCH/EBUSY/EINTR (load profile: each errno with and without NoNewPrivs, systematically), prctl refused; GOMAXPROCS 1 or 4, valid/invalid/oversize policies and one of exactly 65536 instructions, unpinned loads with forced migration attempts (sleep and yield, then a hand-off: a goroutine pins itself to the thread and blocks there), up to 63 extra threads in different states), each run in a fresh child process on the host kernel; a history is non-trivial if it contains at least one load that reaches the kernel; distinct by history JSON"}
 	for _, k := range []string{"valid", "oversize", "wrap16"} {
 		lens[k] = policyLen(k)
 	}
